@@ -156,6 +156,58 @@ fn roundtrip(style: &str, addr: &Address, tail: &[u8]) -> String {
     r.unwrap_or_else(|p| format!("panic: {p}"))
 }
 
+/// The same address through the protocols that carry it: the real client codec writes its first message (address + `tail`
+/// as the first payload, or one byte when the tail is empty), the real server codec of that protocol reads it and must
+/// yield a connect item for exactly that address with exactly that payload - at once, whatever the payload's length.
+fn via_codecs(style: &str, addr: &Address, tail: &[u8]) -> String {
+    use tokio_util::codec::Encoder;
+
+    use crate::refcodec::Cipher;
+    use crate::sut;
+    use octo_squirrel_server::server::verif as sv;
+    let payload: Vec<u8> = if tail.is_empty() { vec![0x7e] } else { tail.to_vec() };
+    let pairs: Vec<(String, String, String)> = if style == "socks5" {
+        vec![
+            ("trojan".to_owned(), sut::trojan_client_cfg(sut::TROJAN_PW), sut::trojan_server_cfg(sut::TROJAN_PW)),
+            ("ss aes-128-gcm".to_owned(), sut::ss_client_cfg(Cipher::Aes128Gcm, 0), sut::ss_server_cfg(Cipher::Aes128Gcm, 0)),
+            ("ss 2022-blake3-aes-128-gcm".to_owned(), sut::ss_client_cfg(Cipher::Aes128Gcm2022, 0), sut::ss_server_cfg(Cipher::Aes128Gcm2022, 0)),
+        ]
+    } else {
+        vec![("vmess".to_owned(), sut::vmess_client_cfg("aes-128-gcm", sut::UUID_A), sut::vmess_server_cfg(&[sut::UUID_A]))]
+    };
+    for (name, ccfg, scfg) in pairs {
+        let r = util::catch(|| -> String {
+            let mut client = match cv::tcp_codec(&ccfg, addr) {
+                Ok(c) => c,
+                Err(e) => return format!("refused: {name} client codec: {e}"),
+            };
+            let mut wire = BytesMut::new();
+            if let Err(e) = client.encode(BytesMut::from(&payload[..]), &mut wire) {
+                return format!("refused: {name} client encode: {e}");
+            }
+            let listener = match sv::listener(&scfg) {
+                Ok(l) => l,
+                Err(e) => return format!("altered: {name} server listener: {e}"),
+            };
+            let mut server = match listener.new_codec() {
+                Ok(c) => c,
+                Err(e) => return format!("altered: {name} server codec: {e}"),
+            };
+            match sut::server_decode(&mut server, &mut wire) {
+                sut::Got::Connect(p, a) if a == addr.to_string() && p == payload => "exact".to_owned(),
+                sut::Got::Connect(p, a) => format!("altered: {name} server connects to {a} with {} payload bytes instead of {} with {}", p.len(), addr, payload.len()),
+                other => format!("altered: {name} server does not connect for {} + {} payload bytes: {:?}", addr, payload.len(), other),
+            }
+        });
+        match r {
+            Ok(s) if s == "exact" => {}
+            Ok(s) => return s,
+            Err(p) => return format!("panic: {name}: {p}"),
+        }
+    }
+    "exact".to_owned()
+}
+
 fn host_len(a: &Address) -> usize {
     match a {
         Address::Domain(h, _) => h.len(),
@@ -241,7 +293,8 @@ async fn run_case(sc: &Value, flavour: usize) -> Vec<Value> {
                 if got != asked {
                     format!("altered: the door turned {} {:02x?}:{} into {} {:02x?}:{}", asked.2, &asked.0[..asked.0.len().min(24)], asked.1, got.2, &got.0[..got.0.len().min(24)], got.1)
                 } else {
-                    roundtrip(style, a, &tail)
+                    let r = roundtrip(style, a, &tail);
+                    if r == "exact" { via_codecs(style, a, &tail) } else { r }
                 }
             }
         };
